@@ -381,13 +381,13 @@ def dnsRestore (w : World) : List (Str × Int) → World
 def dnsClose (w : World) : World := { w with cache := [], know := [] }
 
 /-- `NormalizeAndCacheDnsResp_(msg, key)`: only a response with a question and rcode NOERROR is
-cached — with the TTL of the first answer, or `minFirefoxCacheTtl` (`w.minTtl`) for an EMPTY answer section
+cached — with the TTL of its shortest-lived answer record (fix `2726f40`), or `minFirefoxCacheTtl` (`w.minTtl`) for an EMPTY answer section
 (NODATA counts as a resolution), clamped to one year. -/
 def dnsResp (w : World) (isResponse hasQuestion rcodeOk : Bool) (qname : Str) (qtype : Nat)
-    (firstAnswerTtl : Option Nat) (key : Str) : World × Bool :=
+    (answerTtls : List Nat) (key : Str) : World × Bool :=
   if !isResponse || !hasQuestion || !rcodeOk then (w, false) else
-  let ttl := match firstAnswerTtl with | some t => t | none => w.minTtl
-  let ttl := if ttl > 31536000 then 31536000 else ttl
+  let ttl : Nat := match answerTtls with | t :: ts => ts.foldl min t | [] => w.minTtl
+  let ttl : Nat := if ttl > 31536000 then 31536000 else ttl
   dnsUpdate w qname qtype ((ttl : Int) * 1000000000) key
 
 /-! ### real-domain caches and the probe -/
